@@ -71,6 +71,8 @@ class Check(CheckBase):
     def cases(self, tier):
         K = 4 if tier == "quick" else 7
         cs = [{"label": "S/nodes%d/K%d" % (m, K), "kind": "S", "m": m, "K": K, "split_depth": 5 if K > 4 else None} for m in (1, 2, 3)]
+        # the same geometry subdivided a second time with another flatness (nothing may be remembered between calls)
+        cs.append({"label": "S/nodes2/K2/second-call-other-flatness", "kind": "S", "m": 2, "K": 2, "second": True})
         cs.append({"label": "F/n4", "kind": "F", "n": 4, "split_depth": 4})
         cs.append({"label": "T/i", "kind": "Ti"})
         # T(ii) is not part of either tier: z3 (nlsat) returned 'unknown' after 100 s on the direct formulation and needed
@@ -151,6 +153,12 @@ class Check(CheckBase):
         nodes = [[[run.real("n%d_%d_%s" % (j, h, c)) for c in "xy"] for h in range(3)] for j in range(m)]
         orig = [[[c.t for c in pt] for pt in nd] for nd in nodes]
         first_in, last_out = nodes[0][0], nodes[-1][2]
+        if case.get("second"):
+            # earlier call: same coordinates, coarse flatness (every piece judged flat at once)
+            earlier_marker = object()
+            pu.points_in_tolerance = lambda points, tolerance: True
+            pu.subdivideCubicPath([[list(pt) for pt in nd] for nd in nodes], earlier_marker)
+            pu.points_in_tolerance = stub
         s_p = [[list(pt) for pt in nd] for nd in nodes]
         s_p[0][0] = first_in
         s_p[-1][2] = last_out
@@ -235,6 +243,9 @@ class Check(CheckBase):
             answers.append(True)
             return True
         pu2 = loader.load_plotink("plot_utils")
+        if case.get("second"):
+            pu2.points_in_tolerance = lambda points, tol: True
+            pu2.subdivideCubicPath([[list(pt) for pt in nd] for nd in nodes], 1000)
         pu2.points_in_tolerance = scripted
         s_p = [[list(pt) for pt in nd] for nd in nodes]
         try:
